@@ -111,6 +111,32 @@ def private_roundtrip(kind: int, pi: int, pwi: int, ci: int) -> bool:
 
 
 PYCA_CIPHERS = ['aes128-cbc', 'aes256-cbc', 'des3-cbc']
+PYCA_V1 = [('des3-cbc', 'sha1'), ('rc4-128', 'sha1'), ('des-cbc', 'md5')]      # PBES1 / PKCS#12 schemes PyCA can read
+
+
+def pbes1_interop(kind: int, si: int, der: bool, pwi: int) -> bool:
+    """PKCS#8 exports under the PBES1 / PKCS#12 password schemes (whose key
+    derivation takes the passphrase as UTF-16BE resp. raw bytes) are readable
+    by PyCA cryptography with the same passphrase."""
+    from cryptography.hazmat.primitives import serialization as ser
+    import warnings
+    k = pick(KINDS, kind)
+    cipher, hname = pick(PYCA_V1, si)
+    passphrase = pick(['pw', 'p\xe4ss phrase', 'x'], pwi)
+    with notrace():
+        key = _key(k)
+        fmt = 'pkcs8-der' if der else 'pkcs8-pem'
+        with warnings.catch_warnings():
+            warnings.simplefilter('ignore')
+            data = key.export_private_key(fmt, passphrase=passphrase, cipher_name=cipher, hash_name=hname, pbe_version=1)
+            load = ser.load_der_private_key if der else ser.load_pem_private_key
+            try:
+                other = load(data, passphrase.encode('utf-8'))
+            except Exception:
+                return False
+        pub = other.public_key().public_bytes(ser.Encoding.OpenSSH, ser.PublicFormat.OpenSSH)
+        return asyncssh.import_public_key(pub).public_data == key.public_data
+
 PYCA_HASHES = ['sha1', 'sha256', 'sha512']
 
 
@@ -272,6 +298,9 @@ OBLIGATIONS = [
     Ob('pbes2_interop', pbes2_interop, sym=dict(ci=R(0, 2), hi=R(0, 2), der=B, pwi=R(0, 2)), shards=dict(kind=[0, 1, 2]), timeout=300,
        functions=[PBE.pkcs8_encrypt, PBE.pkcs8_decrypt, PBE._pbes2_pbkdf2, PK.SSHKey.export_private_key, PK.import_private_key],
        bounds='3 key types x {aes128-cbc, aes256-cbc, des3-cbc} x PRF {sha1 (encoded by omission), sha256, sha512} x DER/PEM x 3 passphrases, decoded by PyCA cryptography; PyCA BestAvailableEncryption output imported back'),
+    Ob('pbes1_interop', pbes1_interop, sym=dict(si=R(0, 2), der=B, pwi=R(0, 2)), shards=dict(kind=[0, 1, 2]), timeout=300,
+       functions=[PBE.pkcs8_encrypt, PBE._pbkdf_p12, PBE._pbkdf1, PK.SSHKey.export_private_key],
+       bounds='3 key types x {PKCS#12 SHA1-3DES, PKCS#12 SHA1-RC4-128, PBES1 MD5-DES} x DER/PEM x 3 passphrases (incl. non-ASCII), decoded by PyCA cryptography'),
     Ob('p12_kdf', p12_kdf, sym=dict(n=R(1, 45), idx=R(1, 3), count=R(1, 3), sl=R(1, 9), pwi=R(0, 2)),
        shards=dict(idx=[1, 2, 3], count=[1, 2], sl=[1, 8], pwi=[0, 1, 2]), timeout=200,
        functions=[PBE._pbkdf_p12], bounds='output length 1..45, purpose id 1..3, 1..2 iterations, salt length 1 or 8, 3 passphrases (incl. empty, non-ASCII)'),
